@@ -195,7 +195,7 @@ Definition pf_new (x : list N) (i1 i2 : nat) : res portfinder :=
   end.
 
 Section Portable.
-Variables (c : cpu) (f : portfinder) (a : nat) (h : list N).
+Variables (mb : backend) (f : portfinder) (a : nat) (h : list N).   (* mb: the memchr implementation in use *)
 
 (* loop { i += memchr(byte1, &haystack[i..])?; found = i; i += 1; ... } *)
 Fixpoint pf_loop (fuel i : nat) : M (option nat) :=
@@ -204,7 +204,7 @@ Fixpoint pf_loop (fuel i : nat) : M (option nat) :=
   | S fu =>
       tick 4;;;
       guard 66 (i <=? length h);;;                       (* &haystack[i..] *)
-      r <- (let w := backend_find [pf_b1 f] (a + i) (skipn i h) (x86_choice c) in
+      r <- (let w := backend_find [pf_b1 f] (a + i) (skipn i h) mb in
             (fst w, map (shift_ev i) (snd w)));;
       match r with
       | None => ret None
